@@ -224,6 +224,9 @@ func Render(n *model.Node, rep int, opts []ucfg.Option) interface{} {
 			return v.Interface()
 		}
 	case RepTyped:
+		if len(n.A) == 0 && len(n.D) == 0 && n.Sticky == 2 {
+			return []string(nil) // a typed nil slice is the empty list
+		}
 		if t := typed(n); t != nil {
 			return t
 		}
